@@ -30,5 +30,5 @@ Lemma tables_agree :
   gen_fcall_enc_order = ["Type"; "Tag"; "Message"] /\ gen_fcall_dec_order = ["Type"; "Tag"] /\
   gen_fcall_size_order = gen_fcall_enc_order /\ map fst gen_fcall_fields = gen_fcall_enc_order /\
   int_arms_ok = true /\ type_methods_ok = true /\
-  length spec_kinds_table = 27%nat.
+  List.length spec_kinds_table = 27%nat.
 Proof. repeat split; reflexivity. Qed.
